@@ -110,14 +110,17 @@ class CHECK(vlib.Check):
     prop_file = "Properties_C10.v"
     model = ("Conc/RefExtract.v", "refcnt_driver.ml", "refcnt", ("ocommon.ml",))
     harness = dict(name="refcnt", src="refcnt_h.cpp", san="asan", link_lib=True, extra_srcs=["/verif/harness/sched/sched.cpp"])
-    modelled = ("util/RefCount.h: ConstRef/Ref SetRef (switch-items branch, and the same-item branch converting a reference between counting and non-counting in both directions), operator=, Reset/"
-                "SetStatus, UnrefItem/UnrefItemAux (decrement-and-test, recycle or delete, cascade through member Refs), "
-                "SwapContents / move assignment, CastAwayConstFromRef, IsRefPrivate; system/AtomicCounter.h increment / "
-                "decrement-and-test as single atomic steps; util/ObjectPool.h: ObtainObject/ObtainObjectAux, ReleaseObject "
-                "(reset-to-default, critical section, slab deletion after unlock)/ReleaseObjectAux, Drain, ObjectSlab free "
-                "lists (PopObjectNode/PushObjectNode/InitializeObjectNode), slab list order, _curPoolSize, the conditions of "
-                "PerformSanityCheck.  Not modelled: Neutralize, Clone/EnsureRefIsPrivate, Prefill, "
-                "SetMaxPoolSize, error-status payload of null refs, the _prev/_next pointer representation of the slab list.")
+    modelled = ("util/RefCount.h: ConstRef/Ref SetRef (switch-items branch in the repaired order, and the same-item branch converting a "
+                "reference between counting and non-counting in both directions), operator=, Reset/SetStatus, UnrefItem/UnrefItemAux "
+                "(decrement-and-test, recycle or delete, cascade through member Refs in the order the code releases them), SwapContents / "
+                "move assignment, CastAwayConstFromRef, IsRefPrivate; system/AtomicCounter.h increment / decrement-and-test as single atomic "
+                "steps of an interleaving transition system with any number of threads (thread creation = copies of the parent's references); "
+                "util/ObjectPool.h: ObtainObject/ObtainObjectAux, ReleaseObject (reset-to-default, critical section, slab deletion after "
+                "unlock)/ReleaseObjectAux, Drain, ObjectSlab free lists (PopObjectNode/PushObjectNode/InitializeObjectNode), slab list order, "
+                "_curPoolSize, the conditions of PerformSanityCheck; the link between heap life-cycle states and free lists.  "
+                "Not modelled: Neutralize, Clone/EnsureRefIsPrivate, Prefill, SetMaxPoolSize, error-status payload of null refs, the "
+                "_prev/_next pointer representation of the slab list (the harness checks it describes the same sequence), references "
+                "shared between threads through mutex-protected containers (threads share objects through references copied at creation).")
     premises = ["std::atomic increment / decrement-and-test are atomic and sequentially consistent; std::mutex excludes "
                 "(memory ordering is runtime residue; free-running ASan/TSan stress is supporting evidence only)",
                 "data-race freedom of the Ref variables themselves, as the class documents: a thread writes only its own Ref "
@@ -143,6 +146,13 @@ class CHECK(vlib.Check):
         # multi-threaded histories under the controlled scheduler: random programs x random schedules
         for i in range(250 if tier == "quick" else 4000):
             out.append(("sched-random", sched_case(rng)))
+        # free-running threads (no scheduler): the same kind of programs, repeated; ASan watches, end-state oracle only
+        for i in range(8 if tier == "quick" else 60):
+            N = rng.choice([1, 2, 3]); mx = rng.choice([0, 1, 3]); T = rng.choice([2, 3, 4])
+            kind = rng.choice(["np", "nh"])
+            setup = chain(kind, rng.choice([1, 2, 3]), 0, 1, rng.randrange(K)) + ["np:2"]
+            workers = [[o for o in gen_worker(rng, rng.choice([4, 8, 12])) if not o.startswith("al:")] for _ in range(T)]
+            out.append(("stress", "M%d:%d:%d:%d|%s" % (N, mx, S, 200 if tier == "quick" else 2000, "/".join([";".join(setup)] + [";".join(w) for w in workers]))))
         # every schedule (all 2^9 decision strings) of two workers that drop / copy / advance on a shared chain
         for progs in ("np:0;np:1;as:m0.0:s1;rs:s1/rs:s0/as:s0:m0.0;rs:s0/rs:s0",
                       "nh:0/rs:s0/as:s1:s0;rs:s0;rs:s1/cc:s1:s0;rs:s1;rs:s0",
@@ -186,13 +196,31 @@ class CHECK(vlib.Check):
         return out
 
     def nontrivial(self, case):
-        if case.startswith("S"):
-            return case.count("/") >= 3
+        if case.startswith("S") or case.startswith("M"):
+            return case.count("/") >= 2
         body = case.split("|", 1)[1]
         ops = body.split(";")
         stores = any(o.startswith(("as:m", "cc:m", "sw:m", "al:m")) or (o.startswith("sw:") and ":m" in o) for o in ops)
         drops = any(o.startswith(("rs:", "as:s", "cc:s", "al:s")) for o in ops)
         return (stores and drops) or body.count("np:") >= 3
+
+    def extra_stage(self, ctx):
+        """thorough tier: the free-running stress cases once more under ThreadSanitizer (supporting evidence: real atomics,
+        real mutex; a report is a failure)."""
+        if ctx["tier"] != "thorough":
+            return
+        cases = [c for c in ctx["cases"] if c.startswith("M")]
+        if not cases:
+            return
+        exe = vlib.build_harness(name="refcnt_tsan", src="refcnt_h.cpp", san="tsan", link_lib=True,
+                                 extra_srcs=["/verif/harness/sched/sched.cpp"])
+        rc, out, err = vlib.run_lines(exe, "".join(c + "\n" for c in cases), timeout=1800,
+                                      env={"TSAN_OPTIONS": "halt_on_error=0:report_signal_unsafe=0"})
+        n_rep = err.count("WARNING: ThreadSanitizer")
+        ctx.setdefault("extra_coverage", {})["tsan_stress"] = {"cases": len(cases), "reports": n_rep, "rc": rc}
+        if n_rep or rc != 0 or any("stress bad" in l for l in out):
+            ctx["failures"].append({"kind": "crash", "signature": "crash: " + vlib.san_summary(err) + " (TSan stress)",
+                                    "case": cases[0], "detail": {"stderr": err[-3000:], "stdout": out[-5:]}})
 
     def distribution(self, sc):
         d = {}
